@@ -228,8 +228,9 @@ pub fn judge(c: &Case, rec: &mut Rec) -> Verdict {
     if !run_ok {
         rec.count("exit_nonzero", 1);
         // "replacing an existing entry unless no-clobber is set": without -n, an existing regular file,
-        // fifo or valid symlink at the destination path must be replaced, not make the copy fail
-        let replaceable = c.nodes.iter().take(n).all(|x| matches!(x.dest % 5, 0 | 1 | 2 | 3));
+        // fifo or symlink (valid or dangling: it is an entry) at the destination path must be replaced,
+        // not make the copy fail
+        let replaceable = true;
         if !c.no_clobber && collision && replaceable && out.signal.is_none() {
             return Verdict::faild(
                 format!("C14|{}|existing-entry-not-replaced", driver),
